@@ -988,3 +988,61 @@ pub fn judge_c07(s: &Scenario, r: &RunResult) -> Judged {
     }
     j
 }
+
+// ------------------------------------------------------------------------------------------------------------------
+// Systematic part of C18: a valid reply truncated at EVERY byte
+// ------------------------------------------------------------------------------------------------------------------
+
+/// The fixed replies of the sweep (independent of the seed, so that the sweep is the same finite set on every run).
+pub fn sweep_reply(no: usize) -> Reply {
+    let mut rng = Rng::new(0x5EED_0000 + no as u64);
+    let mut files = Vec::new();
+    for i in 0..1 + no % 3 {
+        let name = POOL[(no + i * 2) % POOL.len()];
+        files.push(RFile { path: name.as_bytes().to_vec(), contents: content_for(name, (no % 2) as u8, false) });
+    }
+    let mut reply = Reply { files, diagnostics: vec![] };
+    if no % 2 == 1 {
+        reply.diagnostics.push(refcodec::schema::RDiag { level: (no % 2) as u8, message: format!("note {}", rng.below(100)).into_bytes(), source: if no % 4 == 1 { Some(b"cfg".to_vec()) } else { None } });
+    }
+    reply
+}
+
+pub fn sweep_len(no: usize) -> usize {
+    refcodec::schema::encode_reply(&sweep_reply(no)).len()
+}
+
+/// Generator 1 sends reply `no` cut after `cut` bytes; generator 2 is well behaved and must still be honoured.
+pub fn truncation_case(no: usize, cut: usize, rng: &mut Rng) -> Scenario {
+    let bytes = refcodec::schema::encode_reply(&sweep_reply(no));
+    let cut = cut.min(bytes.len().saturating_sub(1));
+    let mut world = World::default();
+    let program = catalogue::instantiate("clean-single", &mut Rng::new(no as u64));
+    let mut argv = place_program(&mut Rng::new(1), &mut world, &program, false);
+    world.entries.push(Entry { path: "out".into(), kind: EntryKind::Dir, mode: None });
+    // pre-existing files: one identical to what the good generator writes, one that the truncated reply mentions
+    world.entries.push(Entry { path: "out/same.txt".into(), kind: EntryKind::File { content: String::from_utf8(content_for("same.txt", 0, false)).unwrap(), hex: None }, mode: None });
+    let mut sim = base_sim(rng);
+    sim.fs_faults.clear();
+    let bad = Generator {
+        script: vec![ScriptOp::ReadRequest, gens::w(1, &bytes[..cut]), ScriptOp::Exit { code: 0 }],
+        label: format!("sweep: reply {no} truncated at {cut}/{}", bytes.len()),
+        ..Default::default()
+    };
+    let good_reply = Reply { files: vec![RFile { path: b"same.txt".to_vec(), contents: content_for("same.txt", 0, false) }, RFile { path: b"c.rs".to_vec(), contents: content_for("c.rs", 1, false) }], diagnostics: vec![] };
+    let good = Generator { script: vec![ScriptOp::ReadToEof, gens::w(1, &refcodec::schema::encode_reply(&good_reply)), ScriptOp::Exit { code: 0 }], label: "ok/2files".into(), ..Default::default() };
+    let order_bad_first = cut % 2 == 0;
+    let names = ["gen-alpha", "tools/beta.exe"];
+    let mut metas = Vec::new();
+    for (i, name) in names.iter().enumerate() {
+        let is_bad = (i == 0) == order_bad_first;
+        sim.generators.insert((*name).to_owned(), vec![if is_bad { bad.clone() } else { good.clone() }]);
+        argv.push("-G".into());
+        argv.push((*name).to_owned());
+        metas.push(GenMeta { path: (*name).to_owned(), args: vec![], kind: if is_bad { "truncated".into() } else { "ok".into() } });
+    }
+    argv.push("-O".into());
+    argv.push("out".into());
+    let meta = Meta { property: "C18".into(), generators: metas, output_dir: Some("out".into()), class: "clean".into(), template: "clean-single".into(), expected_warnings: Some(0), ..Default::default() };
+    Scenario { world, argv, sim, note: format!("C18 sweep: reply {no} truncated at byte {cut}"), meta: serde_json::to_value(&meta).unwrap() }
+}
